@@ -4,20 +4,17 @@ Helper lemmas for C09: the conservation invariant of the contained pool machine.
 -/
 namespace PlumVerif.Pool
 
-/-- handling ended without raising -/
-def ok (f : Frame) : Bool := !f.raises
-
 /-- Invariant of the contained machine started with `n` consumers, after the frames
 `arrived` (in order) have been received. -/
-structure Inv (n cfg : Nat) (arrived : List Frame) (s : St) : Prop where
+structure Inv (n : Nat) (cfg : Cfg) (arrived : List Frame) (s : St) : Prop where
   alive : s.alive = n
   bal : s.unfinished = s.queue.length + s.inHand.length
   cap : s.inHand.length ≤ n
   perm : (s.finished ++ s.inHand ++ s.queue).Perm arrived
-  deliv : s.delivered = (s.finished.filter ok).map (·.id)
-  resp : s.responses = (s.finished.filter ok).flatMap (fun f => (respOf cfg f).toList)
+  deliv : s.delivered = (s.finished.filter (ok cfg)).map (·.id)
+  resp : s.responses = (s.finished.filter (ok cfg)).flatMap (repliesOf cfg)
 
-theorem inv_init (n cfg : Nat) : Inv n cfg [] (init n) :=
+theorem inv_init (n : Nat) (cfg : Cfg) : Inv n cfg [] (init n) :=
   ⟨rfl, rfl, Nat.zero_le _, by simp [init], rfl, rfl⟩
 
 theorem arrivals_append (a b : List Mv) : arrivals (a ++ b) = arrivals a ++ arrivals b := by
@@ -25,7 +22,7 @@ theorem arrivals_append (a b : List Mv) : arrivals (a ++ b) = arrivals a ++ arri
   | nil => rfl
   | cons m a ih => cases m <;> simp [arrivals, ih]
 
-theorem inv_step (n cfg : Nat) (a : List Frame) (s : St) (m : Mv) (h : Inv n cfg a s) :
+theorem inv_step (n : Nat) (cfg : Cfg) (a : List Frame) (s : St) (m : Mv) (h : Inv n cfg a s) :
     Inv n cfg (a ++ arrivals [m]) (step true cfg s m) := by
   obtain ⟨ha, hb, hc, hp, hd, hr⟩ := h
   cases m with
@@ -64,24 +61,24 @@ theorem inv_step (n cfg : Nat) (a : List Frame) (s : St) (m : Mv) (h : Inv n cfg
         · apply List.Perm.append_left
           rw [← List.cons_append]
           exact (List.perm_cons_erase hm).symm.append_right _
-      cases hrz : f.raises with
-      | true =>
+      cases hrz : handle cfg f with
+      | raised =>
         simp only [step, hm, if_true, hrz]
         refine ⟨ha, ?_, ?_, hperm, ?_, ?_⟩
         · simp [hb, hlen]; omega
         · simp [hlen]; omega
         · simp [hd, ok, hrz]
         · simp [hr, ok, hrz]
-      | false =>
+      | done rs =>
         simp only [step, hm, if_true, hrz]
         refine ⟨ha, ?_, ?_, hperm, ?_, ?_⟩
         · simp [hb, hlen]; omega
         · simp [hlen]; omega
         · simp [hd, ok, hrz]
-        · simp [hr, ok, hrz]
+        · simp [hr, ok, repliesOf, hrz]
     · simp only [step, hm, if_false]; exact ⟨ha, hb, hc, hp, hd, hr⟩
 
-theorem inv_run (n cfg : Nat) (a : List Frame) (s : St) (ms : List Mv) (h : Inv n cfg a s) :
+theorem inv_run (n : Nat) (cfg : Cfg) (a : List Frame) (s : St) (ms : List Mv) (h : Inv n cfg a s) :
     Inv n cfg (a ++ arrivals ms) (run true cfg s ms) := by
   induction ms generalizing s a with
   | nil => simpa [arrivals, run] using h
@@ -90,7 +87,7 @@ theorem inv_run (n cfg : Nat) (a : List Frame) (s : St) (ms : List Mv) (h : Inv 
     have e : arrivals (m :: ms) = arrivals [m] ++ arrivals ms := arrivals_append [m] ms
     simpa [run, e, List.append_assoc] using this
 
-theorem run_append (c : Bool) (cfg : Nat) (s : St) (a b : List Mv) :
+theorem run_append (c : Bool) (cfg : Cfg) (s : St) (a b : List Mv) :
     run c cfg s (a ++ b) = run c cfg (run c cfg s a) b := by
   induction a generalizing s with
   | nil => rfl
@@ -115,7 +112,7 @@ def internal (ms : List Mv) : Prop := arrivals ms = []
 
 /-- From every state of the contained machine with at least one consumer the pipeline can
 always be run to quiescence by consumer moves alone. -/
-theorem can_quiesce (n cfg : Nat) (hn : 0 < n) :
+theorem can_quiesce (n : Nat) (cfg : Cfg) (hn : 0 < n) :
     ∀ (k : Nat) (a : List Frame) (s : St), 2 * s.queue.length + s.inHand.length ≤ k → Inv n cfg a s →
       ∃ more, internal more ∧ quiescent (run true cfg s more) = true := by
   intro k
@@ -133,10 +130,10 @@ theorem can_quiesce (n cfg : Nat) (hn : 0 < n) :
       have hm : f ∈ s.inHand := by simp [hh]
       have h' := inv_step n cfg a s (.finish f) h
       have hq : (step true cfg s (.finish f)).queue = s.queue := by
-        simp only [step, hm, if_true]; cases f.raises <;> rfl
+        simp only [step, hm, if_true]; cases handle cfg f <;> rfl
       have hl : (step true cfg s (.finish f)).inHand.length = s.inHand.length - 1 := by
         have := List.length_erase_of_mem hm
-        simp only [step, hm, if_true]; cases f.raises <;> simpa using this
+        simp only [step, hm, if_true]; cases handle cfg f <;> simpa using this
       have hpos : 0 < s.inHand.length := List.length_pos_of_mem hm
       obtain ⟨more, hi, hqz⟩ := ih _ _ (by rw [hq, hl]; omega) h'
       exact ⟨.finish f :: more, by simpa [internal, arrivals] using hi, by simpa [run] using hqz⟩
